@@ -47,6 +47,8 @@ type UEmbP struct {
 	PI    interface{} // holds a typed nil map
 	PJ    interface{} // holds a typed nil pointer
 	PK    interface{} // holds a string
+	PN    *UInner     // a nil pointer that is itself the promoted field (not an embedded struct on the way to it)
+	PQ    *UInner
 }
 type ULang string
 type UID int64
@@ -101,7 +103,7 @@ func newUOuter(withEmbP bool) *UOuter {
 	backing := []string{"c0", "c1", "STALE2", "STALE3"}
 	o.SC = backing[:2]
 	if withEmbP {
-		o.UEmbP = &UEmbP{PProm: "pprom", PI: map[string]int(nil), PJ: (*UInner)(nil), PK: "pk"}
+		o.UEmbP = &UEmbP{PProm: "pprom", PI: map[string]int(nil), PJ: (*UInner)(nil), PK: "pk", PQ: &UInner{Name: "pq", N: 9}}
 	}
 	return o
 }
@@ -116,7 +118,7 @@ type c06Step struct {
 	arg  string
 }
 
-var c06Fields = []string{"Promoted", "PProm", "Shadow", "In", "PIn", "NilIn", "PP", "M", "MI", "MA", "MS", "NilM", "ML", "MID", "S", "SI", "NilS", "SC", "A", "Str", "I", "NilI", "TNil", "TNilM", "PI", "PJ", "PK", "U8", "secret", "Nope", "Name", "N", "hidden", "k", "absent", "nilval", "v", "in", "e", "UEmbV", "ID", "Title", "Owner", "Mid", "Deepest", "Deepest2", "UL2", "UL3", "embHidden"}
+var c06Fields = []string{"Promoted", "PProm", "Shadow", "In", "PIn", "NilIn", "PP", "M", "MI", "MA", "MS", "NilM", "ML", "MID", "S", "SI", "NilS", "SC", "A", "Str", "I", "NilI", "TNil", "TNilM", "PI", "PJ", "PK", "PN", "PQ", "U8", "secret", "Nope", "Name", "N", "hidden", "k", "absent", "nilval", "v", "in", "e", "UEmbV", "ID", "Title", "Owner", "Mid", "Deepest", "Deepest2", "UL2", "UL3", "embHidden"}
 
 func c06Steps() []c06Step {
 	var st []c06Step
